@@ -374,6 +374,16 @@ func init() {
 		return StrV{s: "<error>"}, ctlRet
 	}, "zz.errorText")
 
+	// ---- encoding/json: reflection driven, replaced by an opaque document (JSON syntax is outside every claim) ----
+	reg(func(c *callCtx) (Value, ctl) {
+		c.p.usedStub = true
+		bs := []*Term{}
+		for _, ch := range []byte(`{"zz":"opaque-json"}`) {
+			bs = append(bs, c.p.tc().BV(uint64(ch), 8))
+		}
+		return TupleV{c.p.newByteSliceNoMonitor(bs), IfaceV{}}, ctlRet
+	}, "encoding/json.Marshal", "encoding/json.MarshalIndent")
+
 	// ---- time ----
 	reg(func(c *callCtx) (Value, ctl) { return c.p.timeNow(), ctlRet }, "time.Now")
 	reg(func(c *callCtx) (Value, ctl) { return c.p.tc().BV(0, 64), ctlRet }, "time.runtimeNano", "runtime.nanotime")
